@@ -5,7 +5,7 @@ use vcheck::core::{Ctx, Tier};
 use vcheck::swchecks::{SMode, SwCheck};
 use vcheck::ws::Workspace;
 
-const INC: &str = "class Base<int p = 1> { int f = p; }\nmulticlass M<int a> { def _x : Base<a>; }\ndefvar gv = [1, 2];\n";
+use vcheck::swchecks::FUZZ_INC as INC;
 
 fuzz_target!(|data: &[u8]| {
     let text = String::from_utf8_lossy(data);
@@ -13,7 +13,14 @@ fuzz_target!(|data: &[u8]| {
         return;
     }
     let w = Workspace { files: vec![("/ws/main.td".into(), format!("include \"inc.td\"\n{}", text)), ("/ws/inc.td".into(), INC.to_string())], root: 0 };
-    for mode in [SMode::Totality, SMode::Coherence, SMode::Ranges] {
+    // VFUZZ_MODE selects the monitor (the check that runs this target judges artifacts with the same one)
+    let modes: &[SMode] = match std::env::var("VFUZZ_MODE").as_deref() {
+        Ok("totality") => &[SMode::Totality],
+        Ok("coherence") => &[SMode::Coherence],
+        Ok("ranges") => &[SMode::Ranges],
+        _ => &[SMode::Totality, SMode::Coherence, SMode::Ranges],
+    };
+    for &mode in modes {
         let mut ctx = Ctx::new(Tier::Quick, 0, None);
         SwCheck { mode }.check_state(&w, "fuzz", &mut ctx);
         if let Some(v) = ctx.violations.values().next() {
